@@ -1856,6 +1856,9 @@ class FloodFillSubsetState(MaskSubsetState):
         return list(self._data.pixel_component_ids) + [self.att]
 
     def copy(self):
+        if self._data is None:
+            # Only while a session is being restored (see __setgluestate__)
+            return self._deferred(self.att, self.start_coords, self.threshold)
         return FloodFillSubsetState(self.data, self.att, self.start_coords,
                                     self.threshold)
 
@@ -1867,11 +1870,35 @@ class FloodFillSubsetState(MaskSubsetState):
                     threshold=self.threshold)
 
     @classmethod
+    def _deferred(cls, att, start_coords, threshold):
+        # A state for which the data is not known yet, and for which the mask
+        # is therefore computed later
+        self = cls.__new__(cls)
+        self._att = att
+        self._data = None
+        self._start_coords = tuple(start_coords)
+        self._threshold = float(threshold)
+        self._cids = None
+        self._mask_cache = (None, None)
+        return self
+
+    @classmethod
     def __setgluestate__(cls, rec, context):
         att = context.object(rec['attribute'])
-        return cls(att.parent, att,
-                   context.object(rec['start_coords']),
-                   context.object(rec['threshold']))
+        start_coords = context.object(rec['start_coords'])
+        threshold = context.object(rec['threshold'])
+        if att.parent is None:
+            # The dataset the attribute belongs to has not been restored yet,
+            # which happens if subsets of other datasets are restored first
+            return cls._deferred(att, start_coords, threshold)
+        return cls(att.parent, att, start_coords, threshold)
+
+    def __setgluestate_callback__(self, context):
+        if self._data is None:
+            if self.att.parent is None:
+                raise ValueError("data has not been restored yet")
+            self._data = self.att.parent
+            self._cids = self._data.pixel_component_ids
 
 
 class RoiSubsetState3d(RoiSubsetStateNd):
